@@ -373,6 +373,17 @@ add("writer_charge_guard_excludes_15", (WR, "-15 <= chg <= 15", "-15 < chg < 15"
 add("writer_rad_keyword_typo", (WR, 'f" RAD={rad}"', 'f" RADICAL={rad}"'), fires={"R-FIELDS"})
 add("reader_splice_keeps_prefix_blank", (V3, "next_line[7:]", "next_line[6:]"), fires={"R-WRAP"})
 
+add("refactor_wrap_while_len", (WR, '''    while True:
+        if len(line) <= 72:
+            lines.append(f"M  V30 {line}")
+            break
+
+        left, line = line[:71], line[71:]
+        lines.append(f"M  V30 {left}-")''', '''    while len(line) > 72:
+        lines.append(f"M  V30 {line[:71]}-")
+        line = line[71:]
+    lines.append(f"M  V30 {line}")'''), silent=True, note="same wrapping written with the loop condition on the length")
+
 # ---------------------------------------------------------------- parser wiring
 add("parser_lexer_listener_not_registered", (PAR, "    lexer.addErrorListener(LexerErrorListener())\n", ""), fires={"R-LISTENERS"})
 add("parser_default_listeners_kept", (PAR, "    parser.removeErrorListeners()\n", ""), fires={"R-LISTENERS"})
